@@ -125,6 +125,12 @@ int main(int argc, char **argv) {
     if (strcmp(fault, "list_fail_stderr") == 0) { errmsg = "stubgo: induced listing failure\n"; exitc = 1; ok = 0; outlen = 0; lplen = 0; }
     else if (strcmp(fault, "list_fail_silent") == 0) { exitc = 1; ok = 0; outlen = 0; lplen = 0; }
     else if (strcmp(fault, "list_fail_after_output") == 0) { errmsg = "stubgo: failure after output\n"; exitc = 1; ok = 0; }
+    else if (strcmp(fault, "list_cut_midline") == 0) {
+        /* the command dies while printing: the last line stops inside the dependency list */
+        errmsg = "stubgo: killed\n"; exitc = 1; ok = 0;
+        while (outlen > 0 && outbuf[outlen-1] != '[' && outbuf[outlen-1] != ' ') outlen--;
+        if (outlen > 0 && outbuf[outlen-1] == ' ') outlen--;
+    }
     if (exitc == 0 && outlen == 0) { ok = 0; lenient = 1; }
     if (exitc != 0) lenient = 0;
     logprinted[lplen] = 0;
